@@ -12,7 +12,10 @@ From Coq Require Import ZArith.
 Import ListNotations.
 Open Scope N_scope.
 
-Record c12_in := mkIn { i_db : db; i_start : list N; i_steps : list step; i_raw : text; i_cfg : cfg }.
+(* i_spell / i_map: how the start of the --sql range is spelled and the revision map it is looked up in *)
+Record c12_in := mkIn { i_db : db; i_spell : spelling; i_map : list rinfo; i_steps : list step; i_raw : text; i_cfg : cfg }.
+Definition i_start (i:c12_in) : list N := match resolve_start (i_map i) (i_spell i) with Some l => l | None => [] end.
+Definition resolvesb (i:c12_in) : bool := match resolve_start (i_map i) (i_spell i) with Some _ => true | None => false end.
 (* how one side ended: the observable of the database afterwards, after a completed run (ROk) or after an error (RErr) *)
 Inductive robs := ROk (o:obs) | RErr (o:obs).
 Record c12_out := mkOut { o_on : robs; o_off : robs; o_posted : text }.
@@ -30,7 +33,8 @@ Record c12_out := mkOut { o_on : robs; o_off : robs; o_posted : text }.
    around the final DROP of the version table); the script is replayed on an autocommit connection, so these frame the
    transactions, a nested BEGIN or an unmatched COMMIT is an error, and an error inside a block rolls the block back.
    Online the same flags decide where the connection commits (once at the end, or after every step).
-   START: `start` is [] (base) or a single revision.  A multi-head start is not expressible: `upgrade a+b:heads` and
+   START: the range start is spelled as base, a full id, a branch label, a unique prefix or `head`, and is resolved to the
+   revision id (resolve_start) before anything else; `start` is then [] (base) or a single revision.  A multi-head start is not expressible: `upgrade a+b:heads` and
    `a,b:heads` are rejected (CommandError "Can't locate revision identified by 'a+b'"), and `heads:...` with two heads
    raises CommandError (MultipleHeads) in get_current_heads — probed on every run (evidence key
    multi_head_start_rejected). *)
@@ -46,7 +50,8 @@ Definition TERM : text := [59].                  (* SQLiteImpl.command_terminato
 Definition robs_of (x:outcome) : robs := match x with Done d => ROk (observable d) | Aborted d => RErr (observable d) end.
 Definition model_C12 (i:c12_in) : c12_out :=
   mkOut (robs_of (online_outcome lit_c parse_c untext_c (i_cfg i) (i_db i) (i_steps i)))
-        (robs_of (offline_outcome lit_c parse_c untext_c (i_cfg i) (i_db i) (i_start i) (i_steps i)))
+        (robs_of (if resolvesb i then offline_outcome lit_c parse_c untext_c (i_cfg i) (i_db i) (i_start i) (i_steps i)
+                  else Aborted (i_db i)))          (* the spelling does not resolve: CommandError, nothing is written *)
         (exec_post TERM (i_raw i)).
 
 (* ---- decidable equality *)
@@ -113,4 +118,4 @@ Definition start_okb (i:c12_in) : bool :=
   && mid_nonempty (i_start i) (i_steps i)
   && match i_start i, i_steps i with [], [] => false | _, _ => true end.
 Definition inclass_C12 (i:c12_in) : bool :=
-  no_tab_in_literalsb (i_steps i) && lits_roundtripb (i_steps i) && start_okb i.
+  no_tab_in_literalsb (i_steps i) && lits_roundtripb (i_steps i) && start_okb i && resolvesb i.
